@@ -194,6 +194,15 @@ void lm(Ctx &c) {
         sc.uparams.push_back(u);
     }
     for (auto &st : sc.stds) { bool hasu = false; for (auto &cell : st.cells) if (cell.uparam >= 0) hasu = true; if (hasu && (int)st.ports.size() < sc.P) single_with_unknown = true; g.finish(st); }
+    // "later-frequency stress": the guess is exact at the first frequency and far outside the basin at the last one,
+    // with a tiny iteration limit -- the first frequency converges at once, a later one most likely does not, and
+    // the call as a whole must then FAIL (a success must never come with an error report)
+    bool late_stress = false;
+    if (sc.F >= 2 && !sc.uparams.empty() && !sc.uparams[0].correlated && c.chance(1, 6)) {
+        UParam &u = sc.uparams[0]; u.guess_vector = true;
+        u.guess = u.truth; u.guess.back() = u.truth.back() * C(-2.5L, 1.5L) + C(0.7L, -0.9L);
+        late_stress = true;
+    }
     sc.dut = gen_dut(c, sc.P, sc.F);
     long double kappa = 0; int excess = 1 << 30;
     for (int f = 0; f < sc.F; f++) {
@@ -203,13 +212,14 @@ void lm(Ctx &c) {
     }
     if (excess < (int)sc.uparams.size() + 2) { c.label("filtered:too-little-excess"); return; }
     long double ptol = std::pow(10.0L, -(long double)c.range(4, 12)), ettol = std::pow(10.0L, -(long double)c.range(4, 12));
-    int itlimit = c.chance(1, 6) ? (int)c.range(1, 3) : (int)c.range(30, 100);
+    int itlimit = (late_stress || c.chance(1, 6)) ? (int)c.range(1, 3) : (int)c.range(30, 100);
     describe(c, sc);
     c.note("  p_tol %.0Le et_tol %.0Le iteration_limit %d m_error %d kappa %.3Lg excess %d", ptol, ettol, itlimit, (int)m_error, kappa, excess);
     c.label("path:LM"); c.label(std::string("type:") + vm::tname(sc.type));
     if (single_with_unknown) c.label("unknown-with-unspecified-S-cells");
     if (correlated) c.label("correlated");
     if (m_error) c.label("m_error");
+    if (late_stress) c.label("LM:later-frequency-stress");
 
     Runner run(c, sc); run.create(); run.alloc();
     PBT_CHECK(c, vnacal_new_set_p_tolerance(run.vnp, (double)ptol) == 0 && vnacal_new_set_et_tolerance(run.vnp, (double)ettol) == 0 && vnacal_new_set_iteration_limit(run.vnp, itlimit) == 0,
@@ -221,10 +231,11 @@ void lm(Ctx &c) {
     int rc = vnacal_new_solve(run.vnp); int err = errno;
     if (rc != 0) {
         PBT_CHECK(c, err == EDOM && run.log.n_nonwarning() >= 1 && run.log.last()->category == VNAERR_MATH, "C02.failure_report", "solve failed with errno %d (%s) / callbacks: %s", err, strerror(err), run.log.text().c_str());
-        c.label(itlimit <= 3 ? "solve:failed(limit<=3)" : "solve:failed"); return;
+        c.label(itlimit <= 3 ? "solve:failed(limit<=3)" : "solve:failed"); if (late_stress) { c.label("LM:later-frequency-stress:failed"); c.nontrivial(); } return;
     }
     c.label("solve:ok");
     PBT_CHECK(c, run.log.n_nonwarning() == 0, "C02.success_with_error_callback", "solve returned 0 but reported: %s", run.log.text().c_str());
+    if (late_stress) { c.label("LM:later-frequency-stress:solved"); return; }     // the guess was outside the basin on purpose: nothing is claimed about the values
     if (single_with_unknown || sc.uparams.size() >= 2 || correlated || itlimit <= 3) c.nontrivial();
     // with error weighting the exact data are still exact: same bound
     check_solution(c, sc, run, std::max(ptol, ettol), kappa, "LM");
